@@ -27,7 +27,6 @@ from __future__ import annotations
 import asyncio
 import json
 import random
-from typing import Any
 
 from vlib import common, simloop
 from vlib.common import KResult, Violation, Disagreement, Property
